@@ -37,7 +37,7 @@ CASE_TIMEOUT_S = 300
 
 
 def budget(tier):
-    return 200 if tier == "quick" else 6000
+    return 200 if tier == "quick" else 24000
 
 
 def rand_corr(rng, ids):
